@@ -249,6 +249,12 @@ Stray(ln) ==
                       <<"close() of descriptor", ln.a, "which is not open; thread", ln.t>>)>>)
   /\ UNCHANGED <<AfdVars, CtxVars, next_id, pend, live, ids, st>>
 
+\* the driver reads the process's file mode creation mask (without touching it): the library leaves it alone
+PState(ln) ==
+  /\ Report(ln, <<Chk(FALSE, "C15.process_state", <<"file mode creation mask of the process", ln.b>>,
+                      <<"seen by thread", ln.t, ln.c>>)>>)
+  /\ UNCHANGED <<AfdVars, CtxVars, next_id, pend, live, ids, st>>
+
 Reset(ln) ==
   /\ pool' = <<>> /\ cnt' = <<>> /\ fdopen' = {}
   /\ entries' = <<>> /\ ehash' = <<>> /\ use' = <<>> /\ ctxlive' = {}
@@ -273,6 +279,7 @@ TraceNext ==
        [] ln.ev = "conn"      -> Conn(ln)
        [] ln.ev = "end"       -> End(ln)
        [] ln.ev = "stray_close" -> Stray(ln)
+       [] ln.ev = "pstate"    -> PState(ln)
        [] ln.ev = "setup"     -> UNCHANGED <<AfdVars, CtxVars, next_id, pend, live, ids, st>>   \* the driver gave up setting up
        [] ln.ev = "reset"     -> Reset(ln)
        [] ln.ev \in {"crash", "race", "stall"} -> Abnormal(ln)
